@@ -73,7 +73,7 @@ var (
 	sbFree     = []float64{1, 1, 1, 0.75, 0.5}
 )
 
-const sbNumVariants = 6
+const sbNumVariants = 7
 
 func sbGen(t *rapid.T) sbCase {
 	var c sbCase
@@ -108,7 +108,7 @@ func sbGen(t *rapid.T) sbCase {
 		switch a.Kind {
 		case "submit":
 			a.Model = rapid.IntRange(0, c.NModels-1).Draw(t, "model")
-			a.Variant = rapid.SampledFrom([]int{0, 0, 0, 0, 1, 2, 3, 4, 5}).Draw(t, "variant")
+			a.Variant = rapid.SampledFrom([]int{0, 0, 0, 0, 1, 2, 3, 4, 5, 6, 6}).Draw(t, "variant")
 			a.Keep = rapid.IntRange(0, len(sbKeepReq)-1).Draw(t, "keep")
 		case "finish", "cancel", "loadok", "loadfail":
 			a.Idx = rapid.IntRange(0, 5).Draw(t, "idx")
@@ -700,6 +700,11 @@ func (e *sbEngine) submit(a sbAction) {
 		mdl = e.modelsA[m]
 	case 5:
 		opts.NumBatch = 256
+	case 6:
+		// a pointer-valued runner option (use_mmap): every request carries its own allocation of the same value, as
+		// api.Options.FromMap makes one per request - equal values are compatible options
+		b := true
+		opts.UseMMap = &b
 	}
 	ctx, cancel := context.WithCancel(context.Background())
 	r := &sbReq{id: len(e.reqs), model: m, variant: a.Variant, opts: opts, mdl: mdl, cancel: cancel}
